@@ -250,6 +250,9 @@ def equivalence(run, syn, helper, start, n_max, budget_s, validate=3, M=4):
         s.push()
         s.add(z3.Or(da != db, z3.And(da, db, z3.Not(top_same))))
         t_enc = time.time() - t0
+        if os.environ.get("VERIF_DUMP_SMT"):
+            with open(os.path.join(os.environ["VERIF_DUMP_SMT"], f"{run.prop}-{start}-n{n}.smt2"), "w") as f:
+                f.write("(set-logic ALL)\n" + s.to_smt2())
         found = 0
         verdict = "pass"
         while True:
